@@ -236,6 +236,10 @@ class SQLiteDecimalConverter(dbapiprovider.DecimalConverter):
             if val in (converter.inf, converter.neg_inf, converter.NaN):
                 throw(ValueError, 'Cannot store %s Decimal value in database' % val)
             val = val.quantize(exp)
+        elif converter.attr is None and val.is_finite():
+            # a query parameter: sent as text it is not compared numerically with a computed expression
+            number = int(val) if val == val.to_integral_value() else float(val)
+            if Decimal(repr(number)) == val and abs(number) < 2**63: return number
         return str(val)
 
 class SQLiteDateConverter(dbapiprovider.DateConverter):
